@@ -298,10 +298,12 @@ def execute(trace: Dict[str, Any]) -> Dict[str, Any]:
         # that at least two of the threads actually execute when run alone
         count: Dict[str, int] = {}
         lines: Dict[str, int] = {}
+        score: Dict[str, int] = {}
         for a in alone.values():
-            for q, n_lines in a["hot"].items():
+            for q, (n_lines, sc) in a["hot"].items():
                 count[q] = count.get(q, 0) + 1
                 lines[q] = lines.get(q, 0) + n_lines
+                score[q] = max(score.get(q, 0), sc)
         cands = sorted(q for q, n in count.items() if n >= 2) or sorted(count) or ["<module>"]
         # rarely executed shared-state code gets the least coverage from the uniform policies:
         # weight a candidate by 1/sqrt(lines it executes), deterministically from the seed
@@ -309,11 +311,12 @@ def execute(trace: Dict[str, Any]) -> Dict[str, Any]:
 
         mode, _, arg = policy["focus"].partition(":")
         if mode == "rank":
-            ranked = sorted(cands, key=lambda q: (lines.get(q, 0), q))
+            # writers of lasting state first, then readers, then the static list; rarest first
+            ranked = sorted(cands, key=lambda q: (-score.get(q, 0), lines.get(q, 0), q))
             policy = dict(policy, focus=ranked[int(arg) % len(ranked)])
         else:
             pick = _random.Random(int(arg))
-            weights = [1.0 / max(1.0, lines.get(q, 1)) ** 0.5 for q in cands]
+            weights = [score.get(q, 1) ** 2 / max(1.0, lines.get(q, 1)) ** 0.5 for q in cands]
             policy = dict(policy, focus=pick.choices(cands, weights)[0])
     res = run_threads(threads, policy, pre, trace_lark, k, cap)
     violations: List[Dict[str, Any]] = []
